@@ -434,6 +434,7 @@ PROP = Prop(
             name="free_running_threads",
             strategy=_free_case,
             run=run_free,
+            deterministic=False,
             rule="2-6 real threads without scheduler: concurrent connects (same or distinct new database), inserts, CREATE TABLE with comment/lengths; invariants that hold for every timing: no exception, every insert present exactly once, every comment recorded.",
             quick=12,
             thorough=150,
